@@ -78,16 +78,23 @@ class W:
             self.stream = open(self.path, "w", encoding="utf-8", newline="")
             self.writer = FileWriter(self.stream)
         elif kind == "console":
-            class FakeStdout:
+            class FakeStd:
                 buffer = io.BytesIO()
-            fake = FakeStdout()
+            fake = FakeStd()
             fake.buffer = io.BytesIO()
-            old = sys.stdout
-            sys.stdout = fake
+            use_err = idx % 2 == 1
+            old = sys.stderr if use_err else sys.stdout
             try:
-                self.writer = ConsoleWriter()
+                if use_err:
+                    sys.stderr = fake
+                else:
+                    sys.stdout = fake
+                self.writer = ConsoleWriter(stderr=use_err)
             finally:
-                sys.stdout = old
+                if use_err:
+                    sys.stderr = old
+                else:
+                    sys.stdout = old
             self.stream = fake.buffer
         else:
             self.writer = RecordingWriter()
@@ -237,7 +244,10 @@ def _run(ctx, col, case, rng, tmp):
             registered = [w for w in writers if w.registered]
             counts_before = {id(w): w.writer.disconnected for w in registered if w.kind == "custom"}
             ref_before = ref.disconnected
-            g.teardown()
+            if rng.random() < 0.4:
+                g.__exit__(None, None, None)     # leaving a `with GCodeBuilder(...)` block tears down
+            else:
+                g.teardown()
             account()
             log.append(["teardown"])
             col.count("teardown_checks")
